@@ -79,6 +79,8 @@ def child(backend, d, seed):
                 name = "create_bucket"
                 extra += 1
                 st.create_bucket(f"x{extra}", "t", "c", "h", T0.isoformat(), None, None)
+                out("R", name, True)
+                name = "insert_many"
                 st.insert_many(f"x{extra}", [ev() for _ in range(3)])
             elif x < 0.985 and extra:
                 name = "delete_bucket"
@@ -93,6 +95,8 @@ def child(backend, d, seed):
         except Exception:
             ok = False
         out("R", name, ok)
+        if rng.random() < 0.3:
+            time.sleep(0.001)          # keeps the log (and the parent's replay) short
 
 
 def kill_run(backend, seed, delay):
@@ -132,6 +136,8 @@ def kill_run(backend, seed, delay):
         got = dumper(c)
         sh = Shadow(schema_of(c), dumper=dumper)
         c.close()
+        n_stmts = sum(1 for r in recs if r[0] == "S")
+        seen_stmts = 0
         applied = 0
         done = 0            # statements of completed calls
         durable = 0         # statements up to the last returned bucket operation (sqlite) / call (peewee)
@@ -139,7 +145,10 @@ def kill_run(backend, seed, delay):
         split_ranges = []
         for r in recs:
             if r[0] == "S":
-                if sh.apply(r[1]) is not None:
+                seen_stmts += 1
+                # table dumps only near the end: the committed prefix cannot be further back
+                # than 50 + one call (if it is, no dump matches and that is reported)
+                if sh.apply(r[1], digest=seen_stmts > n_stmts - 600) is not None:
                     applied += 1
             elif r[0] == "R":
                 done = applied
